@@ -6,12 +6,12 @@ import subprocess
 import vlib
 
 QUICK = ["IntArray", "FloatArray", "DoubleArray", "UnsignedCharArray", "V2fArray", "V3fArray", "V3dArray", "V4fArray", "V3iArray",
-         "QuatfArray", "M44fArray", "M33dArray", "C4fArray", "Box3fArray", "@functions", "@hosts"]
+         "QuatfArray", "M44fArray", "M33dArray", "C4fArray", "Box3fArray", "@functions", "@hosts", "@2d"]
 ALL = ["BoolArray", "Box2dArray", "Box2fArray", "Box2iArray", "Box2sArray", "Box3dArray", "Box3fArray", "Box3iArray", "Box3sArray",
        "C3cArray", "C3fArray", "C4cArray", "C4fArray", "DoubleArray", "EulerdArray", "EulerfArray", "FloatArray", "IntArray", "M22dArray",
        "M22fArray", "M33dArray", "M33fArray", "M44dArray", "M44fArray", "QuatdArray", "QuatfArray", "ShortArray", "SignedCharArray",
        "UnsignedCharArray", "UnsignedIntArray", "UnsignedShortArray", "V2dArray", "V2fArray", "V2iArray", "V2sArray", "V3dArray", "V3fArray",
-       "V3iArray", "V3sArray", "V4dArray", "V4fArray", "V4iArray", "V4sArray", "V2i64Array", "V3i64Array", "V4i64Array", "@functions", "@hosts"]
+       "V3iArray", "V3sArray", "V4dArray", "V4fArray", "V4iArray", "V4sArray", "V2i64Array", "V3i64Array", "V4i64Array", "@functions", "@hosts", "@2d"]
 
 
 def build_shim(py):
@@ -95,7 +95,7 @@ def run(tier):
     if crashed:
         raise vlib.Infra("vectorised driver failed for %s" % crashed[:3])
     files = [f for f in files if os.path.getsize(f) > 0]
-    res = chk.traces("TaskPoolTrace", files, what="%d array classes + free functions + array-taking methods of Matrix44 / Box / FrustumTest (hand-written tasks, incl. the per-thread partial boxes of Box.extendBy); %d schedules (all partitions/orders of %d cells from TLC, fine partitions, threaded variants)" % (len(classes) - 2, len(sch), 5 if thorough else 4), heap="6g")
+    res = chk.traces("TaskPoolTrace", files, what="%d array classes + free functions + array-taking methods of Matrix44 / Box / FrustumTest (hand-written tasks, incl. the per-thread partial boxes of Box.extendBy) + array methods with heterogeneous arguments + every operator of the 2-D array and matrix classes against an independent element oracle; %d schedules (all partitions/orders of %d cells from TLC, fine partitions, threaded variants)" % (len(classes) - 3, len(sch), 5 if thorough else 4), heap="6g")
     combos = 0
     for f in files:
         combos += sum(1 for line in open(f) if line.startswith('{"e": "ref"'))
